@@ -435,6 +435,26 @@ class Effects:
                 tnames = [norm(t) for t in (gen.target.elts if isinstance(gen.target, ast.Tuple) else [gen.target])]
                 if tnames and tnames[0] == ktext and self._keys_of(f, gen.iter, comp) == cbase:
                     return f"key iterates over `{norm(gen.iter)}`"
+                # `... for k in ks if k in d`: the element expression is evaluated only where the filter holds; a filter of the
+                # generator `ks = (k for k in .. if k in d)` that hands its elements on unchanged counts as well
+                filters = list(gen.ifs)
+                if tnames and tnames[0] == ktext and isinstance(gen.iter, ast.Name):
+                    from .dataflow import flow_of as _flow_of
+
+                    fl_ = _flow_of(f.node)
+                    at_ = fl_.node_of(comp)
+                    ds_ = fl_.defs_reaching(at_.id, gen.iter.id) if at_ is not None else []
+                    if len(ds_) == 1 and isinstance(ds_[0].value, (ast.GeneratorExp, ast.ListComp)) and len(ds_[0].value.generators) == 1:
+                        src = ds_[0].value
+                        if isinstance(src.elt, ast.Name) and norm(src.generators[0].target) == src.elt.id == ktext:
+                            filters += list(src.generators[0].ifs)
+                if not any(x is node for c_ in gen.ifs for x in ast.walk(c_)) and not any(x is node for x in ast.walk(gen.iter)):
+                    for c_ in filters:
+                        for e_, truth_ in _atomise(c_, True):
+                            if truth_ and (_norm_fact(e_) == f"{ktext} in {ctext}" or (
+                                    isinstance(e_, ast.Compare) and len(e_.ops) == 1 and isinstance(e_.ops[0], ast.In) and norm(e_.left) == ktext
+                                    and self._keys_of(f, e_.comparators[0], comp) == cbase)):
+                                return f"guarded by the comprehension filter `{norm(c_)}`"
         for test, lab in self._dominating_tests(cfg, node):
             for cmp_ in [x for x in ast.walk(test) if isinstance(x, ast.Compare)]:
                 if len(cmp_.ops) != 1:
@@ -487,6 +507,9 @@ class Effects:
             return "partition always yields three parts"
         if isinstance(v, (ast.Tuple, ast.List)) and idx is not None and -len(v.elts) <= idx < len(v.elts):
             return "constant container"
+        if idx is not None and isinstance(v, ast.Call) and (dotted(v.func) or "") in ("os.path.splitext", "os.path.split", "os.path.splitdrive",
+                                                                                         "divmod") and -2 <= idx <= 1:
+            return "a pair by construction"
         # a literal key of a dictionary display: directly, or the class-level table self.X / cls.X that nothing assigns
         table = v if isinstance(v, ast.Dict) else None
         if table is None and isinstance(v, ast.Attribute) and isinstance(v.value, ast.Name) and v.value.id in ("self", "cls") and f.cls is not None:
